@@ -54,3 +54,5 @@ def mgda_check(H):
 CHECKS.append(Check("MGDA", [f"{AGG}.mgda.MGDA.__init__", f"{AGG}.mgda._MGDAWeighting.__init__", f"{AGG}.mgda._MGDAWeighting.forward",
                              f"{AGG}.mgda._MGDAWeighting._frank_wolfe_solver", f"{AGG}._gramian_utils._compute_gramian",
                              f"{AGG}.bases._WeightedAggregator.forward"], mgda_check, replay_keys=["C18.mgda", "C04.mgda"]))
+
+VALIDATE_ALGEBRAIC_PRIMS = True  # [V] the algebraic primitive contracts are sampled against real torch on every run
